@@ -78,10 +78,21 @@ def knn_cases(draw):
     mode, pts = draw(clouds(min_n=1))
     n = len(pts)
     qs = draw(queries(mode, pts))
+    coord_dtype = draw(st.sampled_from(blocks.PIXEL_DTYPES + ["uint8"]))
+    if coord_dtype:
+        # pixel positions: integer-valued data and query coordinates in an unsigned / narrow / single-precision dtype, queries also outside the data's bounding box
+        o, sx, sy = draw(st.sampled_from([0, 20, 100])), draw(st.sampled_from([1, 2, 3, 5])), draw(st.sampled_from([1, 2, 3, 5]))
+        cells = draw(st.lists(st.tuples(st.integers(0, 15), st.integers(0, 15)), min_size=1, max_size=25, unique=True))
+        pts = [[float(o + sx * a), float(o + sy * b)] for a, b in cells]
+        n = len(pts)
+        qs = draw(st.lists(st.tuples(st.integers(max(0, o - 20), o + 15 * sx + 20), st.integers(max(0, o - 20), o + 15 * sy + 20)), min_size=1, max_size=20))
+        qs = [[float(a), float(b)] for a, b in qs]
+        mode = "pixel"
     vals = draw(st.lists(st.one_of(st.integers(-100, 100).map(float), gen.finite(-1e3, 1e3)), min_size=n, max_size=n))
     return dict(mode=mode, data=pts, values=vals, query=qs, k=draw(st.integers(1, n)), reduction=draw(st.sampled_from(list(REDS))),
                 dshape=draw(st.sampled_from(blocks.shape_options(n))), qshape=draw(st.sampled_from(blocks.shape_options(len(qs)))),
-                extra=draw(st.booleans()), orders=draw(build.orders_strategy()), container=draw(st.sampled_from(build.CONTAINERS)), int_data=draw(st.booleans()))
+                extra=draw(st.booleans()), orders=draw(build.orders_strategy()), container=draw(st.sampled_from(build.CONTAINERS)), int_data=draw(st.booleans()),
+                coord_dtype=coord_dtype)
 
 
 def check_knn(case, ctx):
@@ -91,14 +102,15 @@ def check_knn(case, ctx):
     k = case["k"]
     dshape, qshape = case["dshape"], case["qshape"]
     lay = build.Lay(case.get("orders"))
-    coords = (lay(d[:, 0], dshape), lay(d[:, 1], dshape)) + ((np.zeros(dshape),) if case["extra"] else ())
+    cdt = case.get("coord_dtype") or "float64"
+    coords = (lay(d[:, 0], dshape, cdt), lay(d[:, 1], dshape, cdt)) + ((np.zeros(dshape),) if case["extra"] else ())
     kn = vd.KNeighbors(k=k, reduction=REDS[case["reduction"]]) if (k, case["reduction"]) != (1, "mean") else vd.KNeighbors()
     P = lambda a: build.present(a, case.get("container"))  # noqa: E731
     if case.get("int_data"):
         vals = np.round(vals)  # integer-valued data in an integer dtype: the mean of k of them is generally not an integer
     vals_arr = lay(vals, dshape, "int64" if case.get("int_data") else "float64")
     kn.fit(tuple(P(c) for c in coords), P(vals_arr))
-    qcoords = (P(lay(q[:, 0], qshape)), P(lay(q[:, 1], qshape)))
+    qcoords = (P(lay(q[:, 0], qshape, cdt)), P(lay(q[:, 1], qshape, cdt)))
     pred = np.asarray(kn.predict(qcoords))
     ctx.check(pred.shape == tuple(qshape), "prediction shape %s, query shape %s", pred.shape, tuple(qshape))
     D = dist_matrix(q, d)
